@@ -269,15 +269,18 @@ def check_raw(ctx, tu, info):
             ok = len(ind) == 1
             if ok:
                 dom = False
+                others = []
                 for bid, blk in b_.blocks.items():
                     c = blk.get('cond')
                     if c and len(blk['succ']) == 2:
                         role = cond_is_nonnull(b_, c, 'functions')
                         if role and edge_dominates(b_, bid, role, b_.pos(ind[0])):
                             dom = True
+                        elif edge_dominates(b_, bid, 'true', b_.pos(ind[0])) or edge_dominates(b_, bid, 'false', b_.pos(ind[0])):
+                            others.append(b_.nloc(c))      # "exactly when": no further condition stands between a held object and its destruction
                 a = b_.call_args(ind[0])
                 pa = path(b_, b_.strip_all_casts(a[0])) if len(a) == 1 else ()
-                ok = dom and len(a) == 1 and 'buffer' in fields_in(pa) and pa[0] == 'this'
+                ok = dom and not others and len(a) == 1 and 'buffer' in fields_in(pa) and pa[0] == 'this'
             ctx.ob('C08.O', f, '~AnyData destroys the held object exactly when it holds one', ok)
         elif f.skey == 'AnyData::AnyData' and f.d.get('ctor') == 'move':
             inits = {i.get('member'): i for i in f.d.get('inits', [])}
